@@ -1,12 +1,97 @@
 import HcipyVerif.Model.Proto
+import HcipyVerif.Model.FftGrid
+import HcipyVerif.Model.FftIndex
 
-/-! Line-protocol front end of the C01 model (stub: not built yet). -/
+/-!
+Line-protocol front end of the C01 model.
+
+* `plan [N…] [δ…] [z…] [q…] [fov…] [s…]` (lists in *dims* order x,y,…) — everything
+  `FastFourierTransform.__init__`/`make_fft_grid` derive: padded sizes, output sizes, output spacing
+  and zero in turns (`Δ = 2π·dT`, `zero = 2π·zeroT + s`), cut-outs, the weight, and the slack of
+  the two float decisions (`round(q·N)`, `int(M·fov)`).
+* `cons N M Mo δ dT` — the grid-consistency predicate on *reported* sizes.
+* `imp fwd|bwd std|emu N M Mo δ z dT s w j` — the modelled pipeline applied to the unit impulse at
+  `j`, every output sample as a monomial `c:t:r` = `c·exp(i(2π·t + r))`.
+* `sum fwd|bwd …` — the same from the defining sum (right-hand side of the theorems).
+-/
 namespace HcipyVerif.Driver.C01
+open HcipyVerif.Proto HcipyVerif.Fft
 
 structure St where
   dummy : Unit := ()
 
+def showCut : Option (List (Nat × Nat)) → String
+  | none => "-"
+  | some l => ",".intercalate (l.map fun (a, b) => s!"{a}:{b}")
+
+def showPSum (p : PSum) : String :=
+  match p.terms with
+  | [] => "0"
+  | [x] => s!"{showRat x.c}:{showRat x.t}:{showRat x.r}"
+  | _ => "multi"
+
+def zip6 : List Nat → List Rat → List Rat → List Rat → List Rat → List Rat → Option (List AxisIn)
+  | [], [], [], [], [], [] => some []
+  | n :: ns, d :: ds, z :: zs, q :: qs, f :: fs, s :: ss =>
+    (zip6 ns ds zs qs fs ss).map fun rest => ⟨n, d, z, q, f, s⟩ :: rest
+  | _, _, _, _, _, _ => none
+
+def minList (l : List Rat) : Rat := l.foldl (fun a b => if b < a then b else a) 1
+
+def parseCfg (dir cfg : String) (args : List String) : Option (Bool × RCfg × Nat) :=
+  match args with
+  | [N, M, Mo, d, z, dT, s, w, j] =>
+    match parseNat? N, parseNat? M, parseNat? Mo, parseRat? d, parseRat? z, parseRat? dT,
+      parseRat? s, parseRat? w, parseNat? j with
+    | some N, some M, some Mo, some d, some z, some dT, some s, some w, some j =>
+      if (dir != "fwd" && dir != "bwd") || (cfg != "std" && cfg != "emu") then none
+      else some (dir == "fwd", { N := N, M := M, Mo := Mo, δ := d, z := z, dT := dT, s := s,
+                                 w := PSum.ofRat w, emu := cfg == "emu" }, j)
+    | _, _, _, _, _, _, _, _, _ => none
+  | _ => none
+
 def step (st : St) : List String → St × String
+  | ["plan", ns, ds, zs, qs, fs, ss] =>
+    match parseNatList? ns, parseRatList? ds, parseRatList? zs, parseRatList? qs,
+      parseRatList? fs, parseRatList? ss with
+    | some ns, some ds, some zs, some qs, some fs, some ss =>
+      match zip6 ns ds zs qs fs ss with
+      | none => (st, "bad-op")
+      | some axes =>
+        if axes.any (fun a => a.N = 0 || a.delta = 0) then (st, "err value") else
+        let ps := axes.map plan
+        let Ns := ps.map (·.N); let Ms := ps.map (·.M); let Mos := ps.map (·.Mo)
+        let w := ps.foldl (fun acc p => acc * p.delta) 1
+        let out := s!"ok M={showNatList Ms} Mo={showNatList Mos} dT={showRatList (ps.map (·.dT))} " ++
+          s!"zeroT={showRatList (ps.map (·.zeroT))} cutin={showCut (cutouts Ns Ms)} " ++
+          s!"cutout={showCut (cutouts Mos Ms)} w={showRat w} " ++
+          s!"slackq={showRatList (axes.map fun a => roundSlack (a.q * a.N))} " ++
+          s!"slackfov={showRatList ((axes.zip ps).map fun (a, p) => outSlack p.M a.fov)}"
+        (st, out)
+    | _, _, _, _, _, _ => (st, "bad-op")
+  | ["cons", N, M, Mo, d, dT] =>
+    match parseNat? N, parseNat? M, parseNat? Mo, parseRat? d, parseRat? dT with
+    | some N, some M, some Mo, some d, some dT =>
+      (st, "ok " ++ showBool (decide (FftConsistent N M Mo d dT)))
+    | _, _, _, _, _ => (st, "bad-op")
+  | "imp" :: dir :: cfg :: args =>
+    match parseCfg dir cfg args with
+    | none => (st, "bad-op")
+    | some (fwd, g, j) =>
+      if g.M = 0 || g.N > g.M || g.Mo > g.M then (st, "err value") else
+      let outs :=
+        if fwd then (List.range g.Mo).map fun k => fastForward PSum.turns PSum.rad g (PSum.impulse j) k
+        else (List.range g.N).map fun k => fastBackward PSum.turns PSum.rad g (PSum.impulse j) k
+      (st, "ok " ++ ";".intercalate (outs.map showPSum))
+  | "sum" :: dir :: cfg :: args =>
+    match parseCfg dir cfg args with
+    | none => (st, "bad-op")
+    | some (fwd, g, j) =>
+      let outs :=
+        if fwd then (List.range g.Mo).map fun k => sumForward PSum.turns PSum.rad g (PSum.impulse j) k
+        else (List.range g.N).map fun k =>
+          sumBackward PSum.turns PSum.rad g (PSum.ofRat g.dT) (PSum.impulse j) k
+      (st, "ok " ++ ";".intercalate (outs.map showPSum))
   | _ => (st, "bad-op")
 
 end HcipyVerif.Driver.C01
